@@ -89,3 +89,11 @@ func VerifC04_q_releaseVsRebind() { vpReleaseVsRebind("C04") }
 // BOUND: cloud provider configured; topology 0; a statefulset pod (symbolic policy) bound on n1, finished (event handled) and deleted (its delete event still pending = late event of the old incarnation); the same-named pod is re-created (new UID), filtered, and its Bind on any approved node among n1,n5 runs while, as a second logical thread starting inside any one window of that Bind (API-server, provider or IPAM call; symbolic window 0..14), the late event is handled; the second thread parks wherever it needs the pod key lock Bind holds and continues when Bind releases it
 // ASSUME: C04: same scenario as VerifC10_q_bindVsLateEvent, checked under C04 (a live bound pod keeps its IP)
 func VerifC04_q_bindVsLateEvent() { vpBindVsLateEvent("C04") }
+
+// BOUND: topologies {0,1}; two pods whose names (and therefore keys) are in a prefix relation: statefulset pods ss-1 and ss-10 (replicas 11), or bare pods bare-1 and bare-10; symbolic policy; both bound; the shorter-named one ends (finished and/or deleted), its event is handled and / or a resync pass runs; then two more pods are scheduled. The longer-named live pod keeps its IP and no IP is held by two live pods
+// ASSUME: C04: same scenario as VerifC01_q_prefixSiblings, checked under C04
+func VerifC04_q_prefixSiblings() { vpPrefixSiblings("C04") }
+
+// BOUND: topologies {1,3} (two pools; in topology 1 they share one pod subnet); two statefulset pods bound on nodes of different pools (n1, n2), symbolic policy; then galaxy-ipam restarts or reloads the unchanged configuration through ensureIPAMConf (tables rebuilt from the store); then two more pods are scheduled on any approved node. Every live bound pod keeps its IP and no IP is held by two live pods
+// ASSUME: C04: same scenario as VerifC01_q_reloadKeepsOwnership, checked under C04
+func VerifC04_q_reloadKeepsOwnership() { vpReloadKeepsOwnership("C04") }
